@@ -77,12 +77,19 @@ _MORE = {
     "C18": ("add_cand_edges proved for every number of frames/detections/gaps: three nested loop invariants give 'edge a->b iff b is in the frame right after a's and within the maximum distance' "
             "(KDTree query, sorted keys, frame->nodes mapping assumed as external contracts). Bounded: node construction, IoU and end-to-end cross-check on every placement of <=4 points in 4 frames and random label videos.",
             "contract-based deductive verification (nested loop invariants, uninterpreted distance predicate) + bounded stand-in"),
-    "C19": ("ensure_unique_labels proved for every number of frames/pixels by a loop invariant over the real loop (both multiseg settings); relabel_segmentation_with_track_id: bounded.",
-            "contract-based deductive verification (loop invariant over a symbolic label array) + bounded stand-in"),
+    "C19": ("ensure_unique_labels proved for every number of frames/pixels by a loop invariant over the real loop (both multiseg settings); relabel_segmentation_with_track_id proved for every graph and array: "
+            "components are taken of the solution minus out-edges of dividing nodes, every pixel of a node's (time, seg id) carries 1 + its segment index, everything else background, inputs untouched "
+            "(networkx copy/remove_edges_from/weakly_connected_components as assumed external contracts). Bounded: cross-check on all forests <= 4 (5) nodes.",
+            "contract-based deductive verification (loop invariants over a symbolic label array and graph) + bounded cross-check"),
 }
 for _k, (_t, _tech) in _MORE.items():
     CHECKS[_k] = {"category": "other", "text": _PB + _t, "note": _PROOF_NOTE + "Bounded stand-ins and assumed contracts are listed in evidence.coverage.bounded_stand_ins / trusted_base.",
                   "technique": _tech}
+CHECKS["C19"]["category"] = "proof"
+CHECKS["C19"]["text"] = CHECKS["C19"]["text"][len(_PB):]
+CHECKS["C19"]["note"] = ("Trusted: pyvc (own VC generator) + z3/cvc5; numpy label-array model (pyvc/arraymodel.py) and the networkx models of out_degree/copy/"
+                         "remove_edges_from/weakly_connected_components (contracts/tracklabel.py); mathematical integers. Both anchored functions are under contract; "
+                         "the bounded run is a cross-check, not part of the claim.")
 CHECKS["C03"]["category"] = "other"
 CHECKS["C03"]["text"] = _PB + CHECKS["C03"]["text"] + " The bodies of the two track-neighbour queries whose contracts the proofs use are proved too (C06 units); bounded cross-check of them on all small forests."
 for _k in ("C02", "C11", "C20"):
